@@ -51,6 +51,10 @@ type Server struct {
 	// nil means "200 with an empty body".  Set it before the first Dial.
 	OnRequest func(r *Request) (status int, body []byte)
 
+	// Framing selects how response bodies are delimited: "" = Content-Length, "chunked", "close" (no length, the
+	// connection is closed behind the body).
+	Framing string
+
 	handlerMu sync.Mutex
 
 	mu       sync.Mutex
@@ -154,15 +158,43 @@ func (s *Server) serve(id int, addr string, c net.Conn) {
 		var out bytes.Buffer
 		fmt.Fprintf(&out, "HTTP/1.1 %03d %s\r\n", status, http.StatusText(status))
 		out.WriteString("Content-Type: application/octet-stream\r\n")
-		fmt.Fprintf(&out, "Content-Length: %d\r\n", len(respBody))
-		if hr.Close {
-			out.WriteString("Connection: close\r\n")
+		closeAfter := hr.Close
+		switch s.Framing {
+		case "chunked":
+			// what net/http does for a handler that writes more than it buffers (or flushes) without setting a length
+			out.WriteString("Transfer-Encoding: chunked\r\n")
+			if hr.Close {
+				out.WriteString("Connection: close\r\n")
+			}
+			out.WriteString("\r\n")
+			rest := respBody
+			for k := 0; len(rest) > 0; k++ {
+				n := []int{1, 4096, 7, 30000}[k%4]
+				if n > len(rest) {
+					n = len(rest)
+				}
+				fmt.Fprintf(&out, "%x\r\n", n)
+				out.Write(rest[:n])
+				out.WriteString("\r\n")
+				rest = rest[n:]
+			}
+			out.WriteString("0\r\n\r\n")
+		case "close":
+			// no length at all: the body ends with the connection (HTTP/1.0 style fronts)
+			closeAfter = true
+			out.WriteString("Connection: close\r\n\r\n")
+			out.Write(respBody)
+		default:
+			fmt.Fprintf(&out, "Content-Length: %d\r\n", len(respBody))
+			if hr.Close {
+				out.WriteString("Connection: close\r\n")
+			}
+			out.WriteString("\r\n")
+			out.Write(respBody)
 		}
-		out.WriteString("\r\n")
-		out.Write(respBody)
 		_, err = c.Write(out.Bytes())
 		done()
-		if err != nil || hr.Close {
+		if err != nil || closeAfter {
 			return
 		}
 	}
